@@ -10,10 +10,16 @@ A case is a list of operations:
 The real Environment executes them with the QueueMonitor (refs/evq.py) attached
 through the instrumentation; the engine itself only adds the run-window checks.
 """
+import contextlib
+import io
 import math
 
 from . import instrument, ties
 from .refs.evq import QueueMonitor, OWNER
+
+
+class HarnessError(Exception):
+    """Raised by a harness action on purpose (user code failing in the middle of an event)."""
 
 
 class HarnessAction:
@@ -29,6 +35,13 @@ class HarnessAction:
         r.exec_log.append((self.label, r.env.now))
         if self.nested:
             for op in self.nested:
+                if op[0] == 'raise':
+                    # only when the caller drives the queue with step() and is prepared to catch
+                    if r.step_driven:
+                        r.sh.count('actions_that_raised')
+                        r.raised_now = True
+                        raise KeyboardInterrupt() if op[1] == 'kbd' else HarnessError('user code failed')
+                    continue
                 r.apply(op, nested=True)
 
 
@@ -51,6 +64,8 @@ class EvqRun:
         self.labels = 0
         self.failed = False
         self.runs = []
+        self.step_driven = False
+        self.raised_now = False
 
     # reports are filtered by property ownership; a discrepancy that belongs to
     # the other property ends the case (the model is out of sync) but is not
@@ -65,6 +80,10 @@ class EvqRun:
     def after_event(self, env, head):
         # Event.execute is public: a second call must not run the action again
         s = getattr(head, 'h_sev', None)
+        if self.raised_now:
+            # the action did not complete: what a second execute() does then is not covered by the statement
+            self.raised_now = False
+            return
         if self.owner != 'C01' or s is None or self.qm.dead or s.cancelled:
             return
         n = s.calls
@@ -101,7 +120,15 @@ class EvqRun:
             if nested:
                 return
             if env._events:
-                env.step()
+                self.step_driven = True
+                try:
+                    with contextlib.redirect_stdout(io.StringIO()):     # the library prints the failed event
+                        env.step()
+                except (HarnessError, KeyboardInterrupt):
+                    # user code failed inside an event; the caller catches it and carries on
+                    self.sh.count('exceptions_caught_by_the_caller')
+                finally:
+                    self.step_driven = False
                 self.sh.count('steps')
         elif kind == 'run':
             if nested:
@@ -154,11 +181,18 @@ BUILTIN_PRIOS = [2, 3, 4, 5, 6, 7, 8, 9, 10, 11]
 FRACTIONAL = [1.5, 2.5, 4.5, 5.5, 6.5, 7.5, 10.5, 11.5]
 
 
-def random_ops(rng, decimal=False, pause_centric=False, aim_pauses=False):
+BIG_BASES = [2 ** 53, 1_700_000_000_000_000_000, 2 ** 60 + 1]
+
+
+def random_ops(rng, decimal=False, pause_centric=False, aim_pauses=False, bigint=False):
     """A random operation sequence of length 10-80."""
     grid = [0, 0, 0.125, 0.25, 0.5, 1, 1, 1.5, 2, 3]
     if decimal:
         grid = [0, 0, 0.1, 0.3, 0.334, 0.7, 1.1, 2.2, 0.05, 1 / 3]
+    if bigint:
+        # an integer tick clock far above 2**53 (e.g. nanoseconds since the epoch): int arithmetic is exact there,
+        # float arithmetic is not
+        grid = [0, 0, 1, 2, 3, 5, 8, 21, 200, 1000]
     prios = BUILTIN_PRIOS + FRACTIONAL
     assets = [1, 2, 3]
 
@@ -166,6 +200,10 @@ def random_ops(rng, decimal=False, pause_centric=False, aim_pauses=False):
         out = []
         for _ in range(rng.choice([0, 0, 1, 1, 2])):
             x = rng.random()
+            if x < 0.06 and depth == 0 and not bigint:
+                # the action fails after what it has done so far (possibly a pause)
+                out.append(['raise', rng.choice(['err', 'err', 'kbd'])])
+                break
             if x < 0.45:
                 out.append(['sched', rng.choice(assets), rng.choice(grid), rng.choice(prios),
                             nested_ops(depth + 1) if depth < 2 and rng.random() < 0.3 else None])
@@ -179,6 +217,10 @@ def random_ops(rng, decimal=False, pause_centric=False, aim_pauses=False):
 
     ops = []
     # clock-moving prefix so that nothing interesting happens at time 0 only
+    if bigint:
+        base = rng.choice(BIG_BASES)
+        ops.append(['sched', rng.choice(assets), base, rng.choice(prios), None])
+        ops.append(['run', base])
     ops.append(['sched', rng.choice(assets), rng.choice(grid[2:]), rng.choice(prios), None])
     ops.append(['run', rng.choice(grid[2:])])
     if aim_pauses:
@@ -205,7 +247,7 @@ def random_ops(rng, decimal=False, pause_centric=False, aim_pauses=False):
             dt = rng.choice(grid)
             if rng.random() < 0.04:
                 dt = -rng.choice(grid[2:])       # attempt to schedule in the past
-            elif rng.random() < 0.04:
+            elif rng.random() < 0.04 and not bigint:
                 dt = rng.choice(['eps', 'eps_rel'])   # ... by the smallest possible margin
             ops.append(['sched', rng.choice(assets + [-1]) if rng.random() < 0.15 else rng.choice(assets), dt,
                         rng.choice(prios), nested_ops(0) if rng.random() < 0.35 else None])
@@ -227,7 +269,7 @@ def random_ops(rng, decimal=False, pause_centric=False, aim_pauses=False):
         else:
             d = rng.choice(grid[1:])
             k = rng.choice([1, 1, 1, 2, 4])
-            if k == 1 or decimal:
+            if k == 1 or decimal or bigint:
                 ops.append(['run', d])
             else:
                 for _ in range(k):
